@@ -188,8 +188,10 @@ class Scenario:
             from ncclient.transport.session import NetconfBase
             ses._base = NetconfBase.BASE_11
         decl = b'<?xml version="1.0" encoding="UTF-8"?>' if spec.get('decl') else b''
+        nul = b'\x00\x00' if spec.get('nulpad') else b''
         def frame(x):
             x = decl + x if x.startswith(b'<') and not x.startswith(b'<?xml') else x
+            x = nul + x + nul[:1]            # Huawei devices pad messages with NUL octets; the profile strips them
             return (b'\n#%d\n' % len(x) + x + b'\n##\n') if base11 else x + b']]>]]>'
         ses.add_listener(NotificationHandler(ses._notification_q))
         self.ses, self.sock = ses, sock
@@ -378,7 +380,11 @@ class Scenario:
                 m = re.search(r'message-id="([^"]+)"', e[2])
                 labels.append([5, rid_of_id.get(m.group(1), 99) if m else 99])
             elif k == 'dispatch':
-                raw = re.sub(r'^<\?xml[^>]*\?>', '', e[2])
+                raw = e[2]
+                if not self._parses(raw):
+                    fixed = self.ses._device_handler.handle_raw_dispatch(raw)     # what the profile makes of it
+                    if isinstance(fixed, str): raw = fixed
+                raw = re.sub(r'^<\?xml[^>]*\?>', '', raw)
                 m = re.search(r'message-id="([^"]+)"', raw)
                 if raw.startswith('<rpc-reply'):
                     labels.append([6, 0, idn(m.group(1))] if m else [6, 1, 0])
